@@ -254,6 +254,7 @@ func readerEntry(req isolate.Req) (resp isolate.Resp) {
 }
 
 func TestMain(m *testing.M) {
+	isolate.RedirectFuzzWorkerStderr()
 	if isolate.IsWorker() {
 		isolate.Serve(handleC10)
 		return
